@@ -158,6 +158,24 @@ def hostile_files():
                                        b.state_var(b.index(b.ty('Uint', 8)), 'arr'), b.struct('Inner', []), b.loc()], kind='Abstract', name='A')]
         return b.source_unit(parts), []
     out.append(('every kind of top-level item and member', items))
+
+    def type_shapes(b):
+        """state variables, struct fields, parameters and locals whose TYPE is written in every form the grammar has: elementary, user
+        name, qualified name `A.B`, arrays (fixed / dynamic / nested), mappings (nested, user-typed keys), function types"""
+        from ..engine import Adt, VecV
+        q = lambda: b.member(b.var('Counters'), 'Counter')
+        qq = lambda: b.member(b.member(b.var('Lib'), 'Inner'), 'Side')
+        fnty = lambda: Adt('Expression', 'Type', (b.loc(), Adt('Type', 'Function', (VecV(()), VecV(()), sol.NONE))))
+        tys = [lambda: b.ty('Uint', 256), lambda: b.ty('Bytes', 7), lambda: b.ty('AddressPayable'), lambda: b.var('Token'), q, qq,
+               lambda: b.index(q()), lambda: b.index(b.index(b.ty('Uint', 8)), b.num(3)), lambda: b.mapping(b.ty('Address'), q()),
+               lambda: b.mapping(b.var('Token'), b.mapping(b.ty('Uint', 8), b.index(b.ty('Bool')))), fnty, lambda: b.ty('String'), lambda: b.ty('DynamicBytes')]
+        members = [b.state_var(t(), 'sv%d' % i, [b.vattr('visibility', 'private')] if i % 3 == 0 else []) for i, t in enumerate(tys)]
+        members.append(b.struct('Shapes', [(t(), 'f%d' % i) for i, t in enumerate(tys) if i != 10]))
+        params = [b.param(t(), 'Memory' if i in (6, 7, 11, 12) else None, 'p%d' % i) for i, t in enumerate(tys) if i not in (8, 9, 10)]
+        body = [b.var_stmt(t(), 'l%d' % i, None, 'Memory' if i in (6, 7, 11, 12) else ('Storage' if i in (8, 9) else None)) for i, t in enumerate(tys) if i != 10]
+        members.append(b.function('Function', 'shapes', params, [b.fattr('visibility', 'public')], b.block(body)))
+        return b.source_unit([b.pragma('solidity', '0.8.16'), fam.contract_with(b, members)]), []
+    out.append(('every form of a type in declarations', type_shapes))
     out.append(('empty file', lambda b: (b.source_unit([]), [])))
     out.append(('only a stray semicolon', lambda b: (b.source_unit([b.supart(b.loc())]), [])))
     # nesting depth 64 (the property's bound) in every recursive construct. Nesting depth = the largest number of Statement and
